@@ -699,16 +699,18 @@ def deriv_bounds(ctx):
     keep = []
     quick = ctx.tier == "quick"
     # ---- (a) bound transforms
-    for model in ("default",) if quick else ("default", "cfit", "extended"):
-        with _case(ctx, agg, "bound/trans_fcn_grad", "bound transformations: " + _RAISE_CLAUSE, {"model": model, "sample_seed": 311}):
-            config = _c07_config(ctx, model, seed=31)
+    # the second pass puts Gaussian constraints on the bounded coupling and mass (added after seeded change C07-gauss_constr_grad_fit_coordinates:
+    # the constraint gradient is a function of the stored value y, not of the fit coordinate x)
+    for model, with_gauss in [("default", False), ("default", True)] if quick else [(m_, g_) for m_ in ("default", "cfit", "extended") for g_ in (False, True)]:
+        with _case(ctx, agg, "bound/trans_fcn_grad", "bound transformations: " + _RAISE_CLAUSE, {"model": model, "sample_seed": 311, "gauss": with_gauss}):
+            config = _c07_config(ctx, model, seed=31, gauss=with_gauss)
             with L.quiet():
                 fcn = config.get_fcn(_c07_samples(config, model, 311))
                 keep.append(fcn)
                 config.set_params({"R_BC_mass": 4.168, "R_BC_width": 0.104})
             vm = fcn.vm
             for bi, bset in enumerate(_bound_sets(quick)):
-                tag = "%s/rot%d" % (model, bi)
+                tag = "%s%s/rot%d" % (model, "+gauss" if with_gauss else "", bi)
                 with L.quiet():
                     vm.set_bound(dict(bset), overwrite=True)
                     x = np.array(vm.get_all_val(True), dtype=float)
@@ -717,7 +719,7 @@ def deriv_bounds(ctx):
                     f_h = vm.trans_f_grad_hess(fcn.nll_grad_hessian)
                     f_p = vm.trans_grad_hessp(fcn.grad_hessp)
                 names = list(vm.trainable_vars)
-                wit0 = {"model": model, "bounds": {k: list(v) for k, v in bset.items()}, "names": names, "x_fit": L.fl(x), "y_physical": L.fl(y), "sample_seed": 311}
+                wit0 = {"model": model, "gauss_constr": dict(config.gauss_constr_dic) if with_gauss else None, "bounds": {k: list(v) for k, v in bset.items()}, "names": names, "x_fit": L.fl(x), "y_physical": L.fl(y), "sample_seed": 311}
 
                 def fg(xx):
                     with L.quiet():
